@@ -12,6 +12,9 @@
 //!
 //! Votor has access to an instance of [`All2All`] for broadcasting votes.
 
+#[cfg(feature = "verif-hooks")]
+pub(crate) mod verif;
+
 use std::collections::{BTreeMap, BTreeSet};
 use std::sync::Arc;
 
@@ -314,6 +317,10 @@ impl<A: All2All> Votor<A> {
     /// Panics if `slot` is not the first slot of a window.
     fn set_timeouts(&self, slot: Slot) {
         assert!(slot.is_start_of_window());
+        #[cfg(feature = "verif-hooks")]
+        if verif::capture_timeouts(slot) {
+            return;
+        }
 
         trace!(
             "setting timeouts for slots {slot}-{}",
